@@ -12,6 +12,7 @@ def dispatch (mode : String) : Option (List String → Verdict) :=
   | "C06" => some SockModel.Drive.C06.runCase
   | "C06legacy" => some SockModel.Drive.C06.runCaseLegacy
   | "C18" => some SockModel.Drive.C18.runCase
+  | "C15" => some SockModel.Drive.C15.runCase
   | _ => none
 
 def main (args : List String) : IO UInt32 := do
